@@ -722,6 +722,21 @@ def cancel_oracle(obs, x, how, not_started=False, targeted=True):
             if dep:
                 out.append(V(f'{x.label}: the cancel call ({how}) returned while CreateMultipartUpload was still in flight, yet '
                              f'{len(dep)} dependent request(s) ({dep[0]["op"]} ...) were issued afterwards', **mech, sym='dependent-request-after-cancel'))
+    # a task of the transfer that STARTS after the cancel call has returned finds the transfer done and must not do its work: no
+    # request may come out of it (future.cancel() only: for the other entry points the end of the call is the end of everything)
+    if ce and targeted and how == 'future.cancel' and x.future is not None:
+        tid = x.future.meta.transfer_id
+        starts = [e for e in obs.events if e['kind'] == 'exec.start' and e.get('tid') == tid and e['n'] > ce[0]['n']]
+        for st in starts:
+            fin = [e['n'] for e in obs.events if e['kind'] == 'exec.finish' and e.get('seq') == st.get('seq') and e.get('stage_of') == st.get('stage_of')
+                   and e['n'] > st['n']]
+            end_n = min(fin) if fin else 10 ** 12
+            reqs = [e for e in obs.events if e['kind'] == 'api.begin' and e.get('label') == x.label and e.get('thread') == st.get('thread')
+                    and st['n'] < e['n'] < end_n and e['op'] != 'AbortMultipartUpload']
+            if reqs:
+                out.append(V(f'{x.label}: task {st.get("task")} was started after the cancel call had returned and still issued {reqs[0]["op"]}',
+                             **mech, sym='request-from-task-started-after-cancel', op=reqs[0]['op']))
+                break
     # an upload body is read by the transport through the library's stream, which checks for the cancellation on every read: once the
     # cancel call has returned at most the read in flight may still deliver data (only judged where the transport reads the
     # library's object directly, i.e. not through botocore's buffering aws-chunked wrapper)
